@@ -1505,6 +1505,9 @@ static JanetSignal janet_continue_no_check(JanetFiber *fiber, Janet in, Janet *o
             *out = in;
             janet_fiber_set_status(fiber, sig);
             fiber->last_value = child->last_value;
+            /* The child is running further up the C stack (it resumed us): drop the stale link so that
+             * child chains never become cyclic. */
+            if (janet_fiber_status(child) == JANET_STATUS_ALIVE) fiber->child = NULL;
             return sig;
         }
         /* Check if we need any special handling for certain opcodes */
@@ -1576,8 +1579,16 @@ JanetSignal janet_continue_signal(JanetFiber *fiber, Janet in, Janet *out, Janet
     JanetSignal tmp_signal = janet_check_can_resume(fiber, out, sig != JANET_SIGNAL_OK);
     if (tmp_signal) return tmp_signal;
     if (sig != JANET_SIGNAL_OK) {
+        /* Find the innermost suspended fiber. Stop at a fiber that is currently running (it cannot take a
+         * signal) and do not walk a cyclic child chain forever. */
         JanetFiber *child = fiber;
-        while (child->child) child = child->child;
+        JanetFiber *slow = fiber;
+        int step = 0;
+        while (child->child && janet_fiber_status(child->child) != JANET_STATUS_ALIVE) {
+            child = child->child;
+            if (step++ & 1) slow = slow->child;
+            if (child == slow) break;
+        }
         child->gc.flags &= ~JANET_FIBER_STATUS_MASK;
         child->gc.flags |= sig << JANET_FIBER_STATUS_OFFSET;
         child->flags |= JANET_FIBER_RESUME_SIGNAL;
